@@ -2,6 +2,7 @@
    One line = one history:   <requeue> <head> <redispatch> <check> <forwardOwn> <resumeBumps> <limit> op op op ...
      g<f>:<x>   fiber f gives item x (blocks when the queue is over capacity)         t<f>   fiber f takes        a<f>   fiber f abandons its wait
      c          close
+     s<f>:<x>   a task of fiber f ends and janet_loop1 reports it to the channel as its supervisor: mode-2 push of item x (never parks)
      a token with a trailing `+` (g / t only) belongs to a burst: the ops of a burst run back to back in one run phase of the loop,
      the pipe is not looked at in between, one observation after the last op of the burst
    After every op the (single) self-pipe is drained (`handle 0` until no message is in flight) and then the run queue
@@ -39,6 +40,12 @@ def parseOp (tok : String) : Option Act :=
     match (String.ofList rest).splitOn ":" with
     | [f, x] => match f.toNat?, x.toNat? with
       | some f, some x => some (.give 0 f x)
+      | _, _ => none
+    | _ => none
+  | 's' :: rest =>
+    match (String.ofList rest).splitOn ":" with
+    | [f, x] => match f.toNat?, x.toNat? with
+      | some f, some x => some (.giveNB f x)
       | _, _ => none
     | _ => none
   | 't' :: rest => (String.ofList rest).toNat?.map (fun f => .take 0 f)
